@@ -87,6 +87,43 @@ CLAIMS = {
         design_ref="DESIGN.md §9 C20", note=RUN_NOTE),
 }
 
+
+def _partial(pid, what, sec):
+    return dict(
+        text="PARTIAL. Proved on the reference semantics, for every program, valuation sequence and registration / observer "
+             "configuration: (1) %s_sync_partial - under the schedule in which every service is completed from inside its "
+             "service-started notification the interpreter issues exactly the denotation den_* of coq/RefDen.v, whose clause "
+             "for this property reads: %s; (2) for ALL schedules and histories the order completes exactly when nothing is "
+             "outstanding (C01 theorem): no wake-up is lost, nothing is deferred. For the other schedules the property's "
+             "behaviour is the definition of the reference semantics; it is compared on every run with the implementation "
+             "and with the faithful net model (all generated programs, completion orders incl. re-entrant ones, valuations), "
+             "under the projection of the trace this property is about. Known findings (parallel-loop shapes D7) are "
+             "reported as KNOWN-FINDING." % (pid, what),
+        technique="Coq proof (mutual induction over the interpreter against a denotational reading; C01 invariant) + "
+                  "differential correspondence with two executable models",
+        design_ref="DESIGN.md §9 " + pid, note=RUN_NOTE)
+
+
+CLAIMS.update({
+    "C02": _partial("C02", "a block is the concatenation in source order of its statements, each exactly once, within one call", 2),
+    "C03": _partial("C03", "all branches of a Parallel are started in the same call in source order and what follows comes after the last branch's task-finished", 3),
+    "C04": _partial("C04", "the guard's variables are queried in the enclosing task instance, the decision is decide (= arithmetic truth value, C13) and exactly the selected branch follows", 4),
+    "C05": _partial("C05", "a counting loop runs its body for k = 0,1,... while k < limit (limit read before each test), a while loop once per true evaluation of its guard, evaluated before every iteration", 5),
+    "C06": _partial("C06", "the limit is read once when the loop is reached and exactly N instances are started in that call, instance i with the counting variable bound to i", 6),
+    "C15": _partial("C15", "every notification carries the call site's parameters in source order with loop indices replaced by the iteration / instance number", 15),
+    "C07": dict(
+        text="PARTIAL. Proved on the reference semantics for all programs and valuations: under the fully re-entrant schedule the "
+             "notifications are exactly TS . body . TF per task and SS . SF per service, properly nested, production task first "
+             "and last (C07_sync_partial); in every history started/finished service notifications balance exactly when the "
+             "order completes and the production task finishes once, last, in the delivering call (C01); identifiers are never "
+             "reused (C07_fresh_identifiers). Not proved: the full lifecycle monitor holds_C07 for arbitrary interleavings - it "
+             "is applied to every implementation trace (incl. completions sent from inside notifications) and the traces are "
+             "compared with both models. Known findings D7 and D20 are reported as KNOWN-FINDING.",
+        technique="Coq proof (denotation for the re-entrant schedule, C01 invariant, fresh-range invariant) + lifecycle "
+                  "monitor on implementation traces + differential correspondence with two executable models",
+        design_ref="DESIGN.md §9 C07", note=RUN_NOTE),
+})
+
 NOT_YET = "check not built yet in this revision (see DESIGN.md §11 staging); will be claimed when its theorem and correspondence slice exist"
 
 
